@@ -1,9 +1,12 @@
 use crate::rt::{PropSpec, Tier};
 
+pub mod c02;
 pub mod c03;
 pub mod c07;
 pub mod c09;
 pub mod c10;
+pub mod c11;
+pub mod c12;
 pub mod c14;
 pub mod c15;
 pub mod c18;
@@ -21,5 +24,5 @@ pub fn shards_1(_t: Tier) -> usize {
 }
 
 pub fn registry() -> Vec<PropSpec> {
-    vec![c03::spec(), c07::spec(), c09::spec(), c10::spec(), c14::spec(), c15::spec(), c18::spec(), c19::spec(), c20::spec()]
+    vec![c02::spec(), c03::spec(), c07::spec(), c09::spec(), c10::spec(), c11::spec(), c12::spec(), c14::spec(), c15::spec(), c18::spec(), c19::spec(), c20::spec()]
 }
